@@ -1,11 +1,13 @@
 #!/bin/bash
 # usage: tools/seed_confirm.sh <worktree> ; confirms in the agent's scratch worktree: suite passes with the change, demo fails with it and passes without
+# (the change is taken out and put back with `git apply -R` / `git apply` of _seed/patch.diff: `git stash` is shared by all worktrees of a repository)
 wt=$1
 cd $wt || exit 2
 export CARGO_TARGET_DIR=$wt/target
+git checkout -q -- . 2>/dev/null; git apply _seed/patch.diff || { echo "patch does not apply on a clean worktree"; exit 2; }
 echo "== suite with change"; timeout 900 cargo nextest run --workspace --no-fail-fast --offline --test-threads 8 2>&1 | grep -E "Summary|FAIL|SIGKILL|TIMEOUT" | head -5
 echo "== demo with change (expect non-zero)"; bash _seed/demo/run.sh > _seed/confirm_with.log 2>&1; echo "rc=$?"
-git stash -q -- . ':!_seed' 2>/dev/null || git stash -q
+git apply -R _seed/patch.diff
 echo "== demo without change (expect 0)"; bash _seed/demo/run.sh > _seed/confirm_without.log 2>&1; echo "rc=$?"
-git stash pop -q
+git apply _seed/patch.diff
 git status --short | head -5
